@@ -171,32 +171,54 @@ func (sdc *signingDoneCheck) waitUntilAllDone(ctx context.Context) (
 			return nil, 0, errWaitDoneTimedOut
 
 		case <-ticker.C:
-			if sdc.expectedSignersCount == len(sdc.doneSigners) {
-				var signature *tecdsa.Signature
-				var latestEndBlock uint64
-
-				for _, doneMessage := range sdc.doneSigners {
-					if signature == nil {
-						signature = doneMessage.signature
-					} else {
-						if !signature.Equals(doneMessage.signature) {
-							return nil, 0, fmt.Errorf(
-								"not matching signatures detected: [%v] and [%v]",
-								signature,
-								doneMessage.signature,
-							)
-						}
-					}
-
-					if doneMessage.endBlock > latestEndBlock {
-						latestEndBlock = doneMessage.endBlock
-					}
-				}
-
-				return &signing.Result{Signature: signature}, latestEndBlock, nil
+			result, latestEndBlock, allDone, err := sdc.checkAllDone()
+			if allDone {
+				return result, latestEndBlock, err
 			}
 		}
 	}
+}
+
+// checkAllDone checks whether all the expected done checks were received.
+// If so, it returns true along with the common signature and the latest end
+// block, or an error if the received signatures do not match. The done checks
+// are written concurrently by the listening routine so they must be read
+// under the mutex.
+func (sdc *signingDoneCheck) checkAllDone() (
+	*signing.Result,
+	uint64,
+	bool,
+	error,
+) {
+	sdc.doneSignersMutex.Lock()
+	defer sdc.doneSignersMutex.Unlock()
+
+	if sdc.expectedSignersCount != len(sdc.doneSigners) {
+		return nil, 0, false, nil
+	}
+
+	var signature *tecdsa.Signature
+	var latestEndBlock uint64
+
+	for _, doneMessage := range sdc.doneSigners {
+		if signature == nil {
+			signature = doneMessage.signature
+		} else {
+			if !signature.Equals(doneMessage.signature) {
+				return nil, 0, true, fmt.Errorf(
+					"not matching signatures detected: [%v] and [%v]",
+					signature,
+					doneMessage.signature,
+				)
+			}
+		}
+
+		if doneMessage.endBlock > latestEndBlock {
+			latestEndBlock = doneMessage.endBlock
+		}
+	}
+
+	return &signing.Result{Signature: signature}, latestEndBlock, true, nil
 }
 
 // isValidDoneMessage validates the given signingDoneMessage in the context
